@@ -19,7 +19,11 @@ from fractions import Fraction
 from typing import Any
 
 import numpy as np
+from scipy.sparse import coo_array
+from scipy.sparse import csc_array
 from scipy.sparse import csr_array
+
+_SPARSE = {"csr": csr_array, "csc": csc_array, "coo": coo_array}
 
 from gemseo.core.discipline.discipline import Discipline
 
@@ -43,7 +47,8 @@ class PolyDisc(Discipline):
         self.in_sizes = {i[0]: i[1] for i in spec["inputs"]}
         self.out_names = [o[0] for o in spec["outputs"]]
         self.out_sizes = {o[0]: o[1] for o in spec["outputs"]}
-        self.sparse_blocks = {tuple(p) for p in spec.get("sparse", [])}
+        # [output, input] (CSR) or [output, input, format]
+        self.sparse_blocks = {(p[0], p[1]): (p[2] if len(p) > 2 else "csr") for p in spec.get("sparse", [])}
         self.run_sets_jac = bool(spec.get("run_sets_jac", False))
         self.io.input_grammar.update_from_names(self.in_names)
         self.io.output_grammar.update_from_names(self.out_names)
@@ -88,7 +93,8 @@ class PolyDisc(Discipline):
                 size = np.asarray(data[n]).size
                 block = np.array(full[:, k : k + size])
                 k += size
-                jac[o][n] = csr_array(block) if (o, n) in self.sparse_blocks else block
+                fmt = self.sparse_blocks.get((o, n))
+                jac[o][n] = _SPARSE[fmt](block) if fmt else block
         self.jac = jac
 
     def _compute_jacobian(self, input_names=(), output_names=()) -> None:
